@@ -226,3 +226,12 @@ impl MatrixSlab {
         ))
     }
 }
+
+#[cfg(nucleo_verif)]
+impl MatrixSlab {
+    /// verification hook: overwrites the whole scratch slab with `byte`, standing in for the
+    /// residue arbitrary earlier calls may have left (the slab is never cleared between calls)
+    pub(crate) fn verif_fill(&mut self, byte: u8) {
+        unsafe { self.0.as_ptr().write_bytes(byte, size_of::<MatcherData>()) }
+    }
+}
